@@ -468,7 +468,7 @@ def match_known(known, g):
 
 
 def write_replay(pid, g):
-    h = hashlib.sha1(g["oid"].encode()).hexdigest()[:10]
+    h = hashlib.sha1((g["oid"] + "|" + str(g.get("class", ""))).encode()).hexdigest()[:10]     # one file per (obligation, witness class)
     path = os.path.join(ROOT, "replays", f"{pid}-{h}.json")
     with open(path, "w", encoding="utf-8") as f:
         json.dump({"property": pid, "obligation": g["oid"], "what": g["descr"], "target": g.get("target"),
